@@ -39,6 +39,13 @@ def execHex (cfg : PureCfg) : List String → String
     match parseHexTok h, parseNat i with
     | some x, some i => showOptByte (x.index i) ++ " ; " ++ showOptByte (x.toBytes[i]?)
     | _, _ => "bad-op"
+  | ["indexmut", h, i] =>
+    -- `IndexMut`: in range exactly when `Index` is; the written byte lands at position `i` of the byte string
+    match parseHexTok h, parseNat i with
+    | some x, some i =>
+      let r := (x.index i).map (fun _ => x.toBytes.set i 0xEE)
+      showOptBytes r ++ " ; " ++ showOptBytes ((x.toBytes[i]?).map (fun _ => x.toBytes.set i 0xEE))
+    | _, _ => "bad-op"
   | ["byteat", h, i] =>
     match parseHexTok h, parseNat i with
     | some x, some i => showOptByte (x.byteAt i) ++ " ; " ++ showOptByte (x.toBytes[i]?)
